@@ -1,5 +1,6 @@
 import OV.Model.C10VersionConv
 import OV.Lemmas.C10
+import OV.Lemmas.C10Eval
 /-!
 # C10 — opset version conversion yields a valid, equivalent model at the target version
 
@@ -29,42 +30,7 @@ theorem good_unit_iff (op : Op) (v : Nat) : Good (fun _ _ => ()) op v ↔ adapt 
 
 /-- Steps for which no adapter is registered never change what a node means (the operator forms of
 GridSample change only at 19→20, of DFT at 19→20, of GroupNormalization at 20→21). -/
-theorem meaning_mono : Mono Op.meaning := by
-  intro op v h
-  cases op with
-  | plain n => rfl
-  | const s is => rfl
-  | call f => rfl
-  | gridSample mode align pad =>
-    have hv : v ≠ 19 := by
-      intro hv; subst hv
-      simp only [adapt, if_true, gridsample_19_20] at h
-      split at h <;> (try split at h) <;> cases h
-    by_cases hle : v ≤ 19
-    · have hle' : v + 1 ≤ 19 := by omega
-      simp [Op.meaning, gsInterp, hle, hle']
-    · have hle' : ¬ v + 1 ≤ 19 := by omega
-      simp [Op.meaning, gsInterp, hle, hle']
-  | dft axis inv one hasLen axisIn rank =>
-    have hv : v ≠ 19 := by
-      intro hv; subst hv
-      simp only [adapt, if_true, dft_19_20] at h
-      cases h
-    by_cases hle : v ≤ 19
-    · have hle' : v + 1 ≤ 19 := by omega
-      simp [Op.meaning, hle, hle']
-    · have hle' : ¬ v + 1 ≤ 19 := by omega
-      simp [Op.meaning, hle, hle']
-  | groupNorm n =>
-    have hv : v ≠ 20 := by
-      intro hv; subst hv
-      simp only [adapt, if_true] at h
-      exact gn_ne_noAdapter n h
-    by_cases hle : v ≤ 20
-    · have hle' : v + 1 ≤ 20 := by omega
-      simp [Op.meaning, hle, hle']
-    · have hle' : ¬ v + 1 ≤ 20 := by omega
-      simp [Op.meaning, hle, hle']
+theorem meaning_mono : Mono Op.meaning := meaning_mono_lemma
 
 /-- **`gridsample_19_20`.**  For every GridSample that is valid at opset 19 (every `mode`, `align_corners`,
 `padding_mode`), the step 19→20 preserves its meaning: `bilinear ↦ linear`, `bicubic ↦ cubic`, the other
@@ -337,6 +303,62 @@ theorem d13a_outcome :
     (nativeConvert 21 d13aModel).2 = none ∧ (nativeConvert 21 d13aModel).1.declared = some 21 ∧
     (nativeConvert 21 d13aModel).1.nodes = d13aModel.nodes := by decide
 
+/-! ## Evaluation level (straight-line graphs) -/
+
+/-- **`convert_evalGraph` (`_partial`: per-step hypothesis `Good Op.meaning`, i.e. outside the open findings).**
+For *every* operator semantics `sem` — an uninterpreted function of (operator with attributes, opset version,
+inputs) — that satisfies the adapter laws `Laws sem` (hypotheses about the run time: GridSample is determined by
+its interpolation/align/padding, DFT-20 with a constant axis input = DFT-17 with that attribute,
+GroupNormalization-21 on the `C/g`-fold repeated scale/bias = GroupNormalization-18 on the per-group ones, and an
+operator form that reads the same at two opsets behaves the same), for every straight-line graph `ns` written for
+`s` over the names `< b`, every environment (inputs and initializers) and every target: evaluating the converted
+graph — the rewrites *with their wiring*, `Constant`/`Reshape`/`Expand` interpreted from the ONNX specification —
+gives every name of the source graph the value the source graph gives it.  `AllTruthful`: shape facts of
+GroupNormalization nodes are true of the values they are evaluated on (A-shape). -/
+theorem convert_evalGraph_partial {D E : Type} (sem : OpSem D E) (hl : Laws sem) (s t : Nat) (ns : List ENode)
+    (b f : Nat) (env : Env D E) (hbf : b ≤ f)
+    (hn : ∀ n ∈ ns, n.ver = s ∧ n.Below b ∧ (∀ v', s ≤ v' → Good Op.meaning n.op v') ∧ (n.op.meaning s).isSome)
+    (ht : AllTruthful sem env ns) :
+    ∀ m, m < b → evalNodes sem env (convGraphE s t ns f).1 m = evalNodes sem env ns m := by
+  intro m hm
+  have := mapFresh_eval sem hl b (t - s) s ns f env env hbf (agree_refl b env)
+    (fun n hn' => ⟨(hn n hn').1, (hn n hn').2.1, fun v' h1 _ => (hn n hn').2.2.1 v' h1, (hn n hn').2.2.2⟩) ht
+  exact (this m hm).symm
+
+/-- The graph-level conversion is the node-level model's conversion with wiring added: it leaves exactly the
+operators `leafSteps` leaves (the model that the correspondence stream compares with the real converter). -/
+theorem convGraphE_refines (s t : Nat) (ns : List ENode) (f : Nat) :
+    (convGraphE s t ns f).1.map (·.op)
+      = (ns.flatMap (fun n => leafSteps (t - s) s (newLeaf n.op s))).map (·.op) := by
+  unfold convGraphE
+  rw [mapFresh_ops (stepsE (t - s) s) (fun o => (leafSteps (t - s) s (newLeaf o s)).map (·.op))
+    (fun m f => stepsE_ops (t - s) s m f (newLeaf m.op s) rfl) ns f, List.map_flatMap]
+
+/-- **The Reshape/Expand wiring of the GroupNormalization rewrite, on the index level.**  In any environment
+where `src` holds a vector `vs` and `cA, cB, cC` hold the constants `[-1,1]`, `[-1]`, `[1,k]`, the three wired
+nodes `Reshape(src,cA)→o1 ; Expand(o1,cC)→o2 ; Reshape(o2,cB)→o3` leave at `o3` a vector of length `|vs|·k` whose
+entry `i` is `vs[i / k]`, and change no other name. -/
+theorem groupnorm_wiring_index {D E : Type} (sem : OpSem D E) (e : Env D E) (src cA cB cC o1 o2 o3 w k : Nat)
+    (vs : List E) (h1 : e src = some (.vec vs)) (hA : e cA = some (.ints [-1, 1])) (hB : e cB = some (.ints [-1]))
+    (hC : e cC = some (.ints [1, (k : Int)])) (d1 : cC ≠ o1) (d2 : cB ≠ o1) (d3 : cB ≠ o2) :
+    ∃ s' : List E,
+      (evalNodes sem e [{ op := .plain "Reshape", ver := w, ins := [some src, some cA], out := o1 },
+                        { op := .plain "Expand", ver := w, ins := [some o1, some cC], out := o2 },
+                        { op := .plain "Reshape", ver := w, ins := [some o2, some cB], out := o3 }]) o3 = some (.vec s') ∧
+      s'.length = vs.length * k ∧ ∀ i, i < vs.length * k → s'[i]? = vs[i / k]? :=
+  ⟨expandScale k vs, (chain_eval sem e src cA cB cC o1 o2 o3 w k vs h1 hA hB hC d1 d2 d3).1,
+    (groupnorm_scale_expand k vs).1, fun i hi => groupnorm_scale_expand_div k vs i hi⟩
+
+/-- The whole rewritten block of one GroupNormalization node (10 wired nodes) evaluates, on every name of the
+source graph, to what the opset-20 node evaluated to. -/
+theorem groupnorm_rewrite_evalGraph {D E : Type} (sem : OpSem D E) (hl : Laws sem) (env : Env D E) (n : ENode)
+    (f b : Nat) (gn : GN) (news : List Op) (hop : n.op = .groupNorm gn) (hA : adapt n.op 20 = .replaced news)
+    (hver : n.ver = 20) (hb : n.Below b) (hbf : b ≤ f) (ht : Truthful env n) :
+    ∃ news' f', rewriteE n 20 f = some (news', f') ∧ news'.map (·.op) = news ∧
+      ∀ m, m < b → evalNodes sem env news' m = evalNode sem env n m := by
+  obtain ⟨news', f', h1, _, h3, _, h5⟩ := rewrite_eval_gn sem hl env n 20 f b news gn hop hA hver hb hbf ht
+  exact ⟨news', f', h1, h3, h5⟩
+
 /-! ## Signature and initializers -/
 
 /-- **`signature_kept`.**  On every path that converts (native, or C API followed by the input truncation
@@ -416,6 +438,48 @@ example : SelfConsistent Op.meaning 18 demoModel ∧ inlineModel demoModel = .ok
       exact ⟨fun _ => rfl, fun _ => rfl, fun _ v' _ => hdft v'⟩
     · simp only [List.mem_cons, List.mem_nil_iff, or_false] at hl; subst hl
       exact ⟨fun _ => rfl, fun _ => rfl, fun _ v' _ => hgn v'⟩
+
+/-- The laws are satisfiable, and the wiring computes: with the (trivial) semantics that knows no operator,
+the block emitted for `GroupNormalization(num_groups=2)` on 4 channels turns the per-group scale `[10,20]`
+at name 1 into `[10,10,20,20]` at name `f+5` and the bias `[1,2]` at name 2 into `[1,1,2,2]` at `f+8`. -/
+example : Laws (fun (_ : Op) (_ : Nat) (_ : List (Option (Val Unit Nat))) => none) :=
+  ⟨fun _ _ _ _ _ => rfl, fun _ _ _ _ _ _ _ _ _ => rfl, fun _ _ _ _ _ _ _ => rfl,
+   fun _ _ _ _ _ _ _ _ _ _ _ _ _ _ _ _ _ => rfl⟩
+
+def demoEnv : Env Unit Nat := fun m => if m = 1 then some (.vec [10, 20]) else if m = 2 then some (.vec [1, 2]) else none
+
+def demoGNNode : ENode := { op := .groupNorm gnStatic, ver := 20, ins := [some 0, some 1, some 2], out := 3 }
+
+example :
+    (match rewriteE demoGNNode 20 4 with
+     | some (news, _) =>
+       (match evalNodes (fun _ _ _ => none) demoEnv news 9, evalNodes (fun _ _ _ => none) demoEnv news 12 with
+        | some (.vec a), some (.vec b) => a == [10, 10, 20, 20] && b == [1, 1, 2, 2]
+        | _, _ => false)
+     | none => false) = true := by decide
+
+/-- The hypotheses of `convert_evalGraph_partial` hold for a concrete graph (GridSample(bilinear) then DFT(axis=1)
+written for opset 19), for every semantics and environment. -/
+example {D E : Type} (sem : OpSem D E) (env : Env D E) :
+    let ns : List ENode := [{ op := .gridSample (some "bilinear") none none, ver := 19, ins := [some 0, some 1], out := 2 },
+                            { op := .dft (some 1) none none false none 3, ver := 19, ins := [some 2], out := 3 }]
+    (∀ n ∈ ns, n.ver = 19 ∧ n.Below 4 ∧ (∀ v', 19 ≤ v' → Good Op.meaning n.op v') ∧ (n.op.meaning 19).isSome) ∧
+    AllTruthful sem env ns := by
+  intro ns
+  refine ⟨?_, ⟨trivial, ⟨by simp [Truthful], trivial⟩⟩⟩
+  intro n hn
+  simp only [ns, List.mem_cons, List.mem_nil_iff, or_false] at hn
+  rcases hn with rfl | rfl
+  · refine ⟨rfl, ⟨by decide, by intro i hi m hm; simp at hi; rcases hi with rfl | rfl <;> (injection hm with hm; omega)⟩, ?_, by decide⟩
+    intro v' _
+    by_cases h : v' = 19
+    · subst h; exact gridsample_mode_rename _ _ _ (by decide)
+    · exact good_of_quiet _ (by simp [adapt, h])
+  · refine ⟨rfl, ⟨by decide, by intro i hi m hm; simp at hi; subst hi; injection hm with hm; omega⟩, ?_, by decide⟩
+    intro v' _
+    by_cases h : v' = 19
+    · subst h; exact (dft_axis_attr_eq_input 1 none none false 3).2
+    · exact good_of_quiet _ (by simp [adapt, h])
 
 /-- Instances of the adapter laws' hypotheses. -/
 example : (Op.meaning (.gridSample (some "bicubic") (some 1) none) 19).isSome := by decide
